@@ -8,6 +8,7 @@ from typing import TYPE_CHECKING, Tuple, cast, overload
 import numpy as np
 
 from physt._construction import calculate_nd_frequencies
+from physt._util import real_edges
 from physt.histogram_base import HistogramBase
 
 if TYPE_CHECKING:
@@ -200,7 +201,7 @@ class HistogramND(HistogramBase):
     ) -> Union[np.ndarray, Sequence[np.ndarray]]:  # TODO: -> Base ?
         if axis is not None:
             axis = self._get_axis(axis)
-            return self.get_bin_right_edges(axis) - self.get_bin_left_edges(axis)
+            return real_edges(self.get_bin_right_edges(axis)) - real_edges(self.get_bin_left_edges(axis))
         return np.meshgrid(
             *[self.get_bin_widths(i) for i in range(self.ndim)], indexing="ij"
         )
@@ -288,7 +289,9 @@ class HistogramND(HistogramBase):
     ) -> Union[np.ndarray, Sequence[np.ndarray]]:
         if axis is not None:
             axis = self._get_axis(axis)
-            return (self.get_bin_right_edges(axis) + self.get_bin_left_edges(axis)) / 2
+            return (
+                real_edges(self.get_bin_right_edges(axis)) + real_edges(self.get_bin_left_edges(axis))
+            ) / 2
         return np.meshgrid(
             *[self.get_bin_centers(i) for i in range(self.ndim)], indexing="ij"
         )
